@@ -14,7 +14,7 @@ RULE = (
     'Histories: cACGMM, cWMM, GMM (full/diagonal/spherical), GCACGMM with '
     'unit stream weights; general-position clustered data with N in '
     '[4KD, 4KD+20] per slice, 0..2 leading axes, strictly positive Dirichlet '
-    'starts (floor 1e-3), n in {2,3,5,10,20,30} iterations, every '
+    'starts (floor 1e-3), n in {2,3,5,10,20,30} iterations (50 instead of 30 in the thorough tier), every '
     'weight_constant_axis, saliency none/positive, covariance_norm, '
     'hermitize, affiliation_eps in {0, 1e-10}. The trajectory is taken from '
     'the iteration-trace hook of one run and cross-checked against '
@@ -60,7 +60,9 @@ def _draw(d, kind, max_iter, tied=False):
         max_iterations=max_iter, allow_scale=False,
         init_kinds=('dirichlet',), allow_mask=False,
         positive_saliency_only=True, regular_share=False)
-    case.iterations = d.choice([2, 3, 5, 10, 20, max(max_iter, 2)])
+    import os
+    deep = 50 if os.environ.get('PBV_TIER') == 'thorough' else max(max_iter, 2)
+    case.iterations = d.choice([2, 3, 5, 10, 20, deep])
     o = case.opts
     if 'affiliation_eps' in o:
         o['affiliation_eps'] = 0.0 if o['affiliation_eps'] == 1e-3 else \
